@@ -135,9 +135,9 @@ MC_QUICK = {
                     uidmodes=[True, False], preset="msgs3", maxsteps=2),
 }
 MC_THOROUGH = {
-    "mc-creds": dict(kinds=CREDS, spell=ALL_SPELL, pws=["p1", "p2"], confirms=["flag", "y", "n"], maxsteps=6),
+    "mc-creds": dict(kinds=CREDS, spell=ALL_SPELL, pws=["p1", "p2"], confirms=["flag", "y", "n"], maxsteps=7),
     "mc-acct": dict(kinds=ACCT + MBOX + ["Deliver"], spell=["a", "aC", "aW", "b", "x", ""], confirms=["flag", "y", "n"],
-                    sus=[False, True], mnames=["INBOX", "A", "A.B", "Junk", ""], specials=["none", "Junk"], maxsteps=3),
+                    sus=[False, True], mnames=["INBOX", "A", "A.B", "Junk", ""], specials=["none", "Junk"], maxsteps=4),
     "mc-tree": dict(kinds=MBOX + ["AcctRemove", "AcctCreate"], spell=["a", "aC"], confirms=["flag", "n"],
                     mnames=["INBOX", "A", "A.B", "a.B", "C", "C.B", "A.B.C", "B", ""], preset="treemsgs", maxsteps=3),
     "mc-msgs": dict(kinds=MSGS, spell=["a", "aW"], confirms=["flag", "y", "n"], mnames=["INBOX", "A", ""],
@@ -145,9 +145,9 @@ MC_THOROUGH = {
                     uidmodes=[True, False], preset="msgs3", maxsteps=2),
     "mc-msgs3": dict(kinds=["MsgAdd", "MsgRemove", "MsgCopy", "MsgMove", "MboxRemove", "MboxRename", "AcctRemove", "AcctCreate"],
                      spell=["a"], confirms=["flag"], mnames=["INBOX", "A", "B"], addflags=[["F"]],
-                     ranges=["1", "1:*", "2"], uidmodes=[True, False], preset="msgs", maxsteps=3),
+                     ranges=["1", "1:*", "2"], uidmodes=[True, False], preset="msgs", maxsteps=4),
     "mc-all": dict(kinds=CREDS + ACCT + MBOX + MSGS, spell=["a", "aC"], pws=["p1", "p2"], confirms=["flag", "n"],
-                   mnames=["INBOX", "A"], ranges=["1", "1:*"], uidmodes=[True], preset="empty", maxsteps=4),
+                   mnames=["INBOX", "A"], ranges=["1", "1:*"], uidmodes=[True], preset="empty", maxsteps=6),
 }
 
 # ---- as-is models: every deviation alone must be found by NoViolation ------------------------------
@@ -189,9 +189,9 @@ FAMILIES = {
                  confirms=["flag"], mnames=["INBOX", "A", "B"], addflags=[[]], preset="msgs", maxsteps=3),
 }
 QUICK_PER_FAMILY = 12
-THOROUGH_FAMILY_CAP = 350
+THOROUGH_FAMILY_CAP = 500
 QUICK_SIM = 30
-THOROUGH_SIM = 500
+THOROUGH_SIM = 700
 
 SIMS = {
     "sim-empty": dict(kinds=CREDS + ACCT + MBOX + MSGS + ["Deliver"], spell=["a", "aC", "aW", "b"], pws=["p1", "p2"],
